@@ -8,6 +8,8 @@ Case kinds
   vdata  a history of InputValidation.validate_data calls on one object (verdict per call, rule table before/after)
   chain  one InputValidation.validate(name, value, rules) call          (accept_iff)
   infer  InputValidation._validations_from_uijson over a SEQUENCE of template-built forms in one process (first form again at the end)
+  form   a history on ONE FormParameter object (forms.py / descriptors.py): constructor kwargs, member assignment, register(),
+         UIJson.update(); verdict, form() and active members after every call, and the verdict of a fresh object
   ifv    a history on ONE validating InputFile: ui_json assignment(s), whole-data assignments, set_data_value; verdicts, the form
          after every call, and the verdict a brand-new InputFile gives for the same data
 """
@@ -26,7 +28,7 @@ _W = uipv.WORLD
 W0 = ("{| w_ents := [" + "; ".join(f"({u}%N, {'KEntity' if k == 'ent' else '(KPropGroup ' + uipv.cstring(k[3:]) + ')'})" for u, k in _W["ents"].items())
       + "]; w_desc := [" + "; ".join(f"({u}%N, [" + "; ".join(f"{d}%N" for d in ds) + "])" for u, ds in _W["desc"].items()) + "] |}")
 CASE_IMPORTS = ("From Coq Require Import String.\nFrom GV Require Import Prelude.Base Model.PyVal Model.UiRules Model.Enforcers Model.UiForms "
-                "Model.UiCodec Model.IfValidate.\n"
+                "Model.UiCodec Model.IfValidate Model.FormParams.\n"
                 "From GVgen Require Import PyLite_SharedUtils PyLite_UiUtils PyLite_Validators PyLite_Validation Table_UiValidations.\n"
                 "Local Open Scope string_scope.\n"
                 f"Definition W0 : world := {W0}.")
@@ -48,8 +50,11 @@ TRUSTED = [
     "hand-written coq/theories/Model/IfValidate.v (the rule tables a validating InputFile accumulates over ui_json assignments, the data "
     "setter, set_data_value), with _validations_from_uijson as PyLite output and base_validations extracted from constants.py; tied by "
     "histories on one InputFile object and by sequences of forms inferred in one process",
-    "not modelled: TypeUIDEnforcer and the Required*Enforcers (collection checks of the new UIJson class), FormParameter.register, "
-    "pydantic forms (forms.py BaseForm family)",
+    "hand-written coq/theories/Model/FormParams.v (FormValueAccess.__set__, FormParameter.value / register / active / form, UIJson.update for "
+    "one form); the Parameter class behind every member is read off the live object, MemberKeys.camel_to_snake is extracted from forms.py; "
+    "tied by histories of member assignments, register(), constructor kwargs and UIJson.update on one object",
+    "not modelled: TypeUIDEnforcer and the Required*Enforcers (collection checks of the UIJson class), Object/Data/File form parameter "
+    "classes, pydantic forms (forms.py BaseForm family)",
 ]
 ASSUMPTIONS = [
     "strings are printable ASCII; uuid-shaped strings use hex digits only (Python's int() leniency: sign, 0x, underscores, blanks is not modelled)",
@@ -60,7 +65,8 @@ ASSUMPTIONS = [
 RULE = ("rv: 2-6 forms from all 12 templates, each optional template member present/absent independently, group / groupOptional / "
         "dependency / dependencyType / enabled switches (exhaustive 2^7 switch vectors over a 3-parameter layout in every run, "
         "random layouts besides, ~8% ill-formed members); histories of 2-5 calls with good/bad values in every order; "
-        "infer: 2-3 template-built forms inferred one after the other in one process, the first one again at the end; ifv: one validating "
+        "form: one FormParameter object of 6 classes, constructor kwargs, 2-5 calls of member assignment / register / UIJson.update with "
+        "accepted and rejected values in snake and camel case, unknown members; infer: 2-3 template-built forms inferred one after the other in one process, the first one again at the end; ifv: one validating "
         "InputFile serving one or two forms (second form with other - rarely the same - parameter names), whole-data assignments with "
         "valid / invalid values, set_data_value, each verdict also taken on a brand-new InputFile with the same data; association "
         "rules with parents that have nested children; "
@@ -344,6 +350,69 @@ def gen_ifv_case(rng):
     return {"k": "ifv", "ops": ops}
 
 
+FORM_CLASSES = ["FormParameter", "StringFormParameter", "BoolFormParameter", "IntegerFormParameter", "FloatFormParameter",
+                "ChoiceStringFormParameter"]
+FORM_MEMBER_VALUES = {
+    "label": ["My label", 3, None], "enabled": [True, False, "no", 1, None], "optional": [True, False, "yes", {"f": [3, 1]}],
+    "group_optional": [True, False, {"f": [3, 1]}, "true"], "main": [True, False, "x"], "group": ["G", 5, None],
+    "dependency": ["other", 5, 12, None], "dependency_type": ["enabled", "disabled", "sometimes", None, {"l": ["enabled"]}],
+    "group_dependency": ["other", 7], "group_dependency_type": ["enabled", "disabled", "never"], "tooltip": ["tip", 1],
+    "min": [0, {"f": [0, 0]}, "low"], "max": [10, {"f": [5, 1]}, "high"], "precision": [3, "two", {"f": [3, 1]}], "line_edit": [True, "x"],
+    "choice_list": [{"l": ["a", "b"]}, "abc", 5],
+}
+CAMEL = {"group_optional": "groupOptional", "dependency_type": "dependencyType", "group_dependency": "groupDependency",
+         "group_dependency_type": "groupDependencyType", "line_edit": "lineEdit", "choice_list": "choiceList"}
+
+
+def form_members(cls):
+    base = ["label", "enabled", "optional", "group_optional", "main", "group", "dependency", "dependency_type", "group_dependency",
+            "group_dependency_type", "tooltip"]
+    extra = {"IntegerFormParameter": ["min", "max"], "FloatFormParameter": ["min", "max", "precision", "line_edit"],
+             "ChoiceStringFormParameter": ["choice_list"]}.get(cls, [])
+    return base + extra
+
+
+def form_value_for(rng, cls):
+    good = {"FormParameter": [1, "x", None, {"l": [1]}], "StringFormParameter": ["abc", "xyz"], "BoolFormParameter": [True, False],
+            "IntegerFormParameter": [3, 7], "FloatFormParameter": [{"f": [3, 1]}, {"f": [1, 0]}], "ChoiceStringFormParameter": ["a", "b"]}[cls]
+    return rng.choice(good) if rng.chance(70) else rng.choice([5, "zzz", {"f": [3, 1]}, True, {"l": ["a"]}, None])
+
+
+def gen_form_items(rng, cls, n, with_value=False):
+    ms = rng.sample(form_members(cls), n)
+    items = []
+    for m in ms:
+        key = CAMEL.get(m, m) if rng.chance(60) else m
+        items.append([key, rng.choice(FORM_MEMBER_VALUES[m])])
+    if rng.chance(20):
+        items.append([rng.choice(["foo", "rangeLabel", "allowComplement"]), rng.choice([1, "x", True])])
+    if with_value:
+        items.append(["value", form_value_for(rng, cls)])
+    return rng.shuffle(items)
+
+
+def gen_form_case(rng):
+    cls = rng.choice(FORM_CLASSES)
+    case = {"k": "form", "cls": cls, "value": form_value_for(rng, cls) if rng.chance(85) else None,
+            "kwargs": gen_form_items(rng, cls, rng.range(0, 3)), "ops": []}
+    if "Choice" in cls:
+        case["kwargs"] = [kv for kv in case["kwargs"] if kv[0] not in ("choice_list", "choiceList")]    # given positionally below
+        case["choice_list"] = ["a", "b", "c"]
+        if case["value"] is None:
+            case["value"] = "a"
+    for _ in range(rng.range(2, 5)):
+        r = rng.below(100)
+        if r < 55:
+            m = rng.choice(form_members(cls) + ["value"])
+            v = form_value_for(rng, cls) if m == "value" else rng.choice(FORM_MEMBER_VALUES[m])
+            case["ops"].append({"op": "set", "m": m, "v": v})
+        elif r < 80:
+            case["ops"].append({"op": "register", "items": gen_form_items(rng, cls, rng.range(1, 3))})
+        else:
+            case["ops"].append({"op": "update", "items": gen_form_items(rng, cls, rng.range(1, 2), with_value=rng.chance(80))})
+    return case
+
+
 def gen_infer_case(rng):
     uis = []
     for k in range(rng.range(2, 3)):
@@ -445,6 +514,8 @@ def generate(rng, tier):
         cases.append(gen_infer_case(rng))
     for _ in range(60 * scale):
         cases.append(gen_ifv_case(rng))
+    for _ in range(80 * scale):
+        cases.append(gen_form_case(rng))
     return cases
 
 
@@ -549,6 +620,67 @@ def drive_one(case, work):
             seq.append([verdict, enc(par.value, work)])
             fresh.append(_verdict(setv, mk(), dec(v, work)))
         return {"init": init, "seq": seq, "fresh": fresh}
+    if k == "form":
+        from geoh5py.ui_json import forms as F
+        from geoh5py.ui_json import parameters as P
+        from geoh5py.ui_json.ui_json import UIJson
+        cls = getattr(F, case["cls"])
+
+        def build(kwargs):
+            args = {"value": dec(case["value"], work)}
+            if "choice_list" in case:
+                args["choice_list"] = list(case["choice_list"])
+            return cls("my", **args, **kwargs)
+
+        def reflect(p):
+            spec = []
+            for m in p.valid_members:
+                q = getattr(p, "_" + m)
+                ent = {"m": m, "cls": type(q).__name__, "val": enc(q.value, work)}
+                if isinstance(q, P.DynamicallyRestrictedParameter):
+                    r = q.restrictions
+                    r = list(r) if isinstance(r, (list, set, tuple)) else [r]
+                    ent["restr"] = [enc(x, work) for x in r]
+                    ent["etype"] = q._enforcer_type      # pylint: disable=protected-access
+                spec.append(ent)
+            return spec
+        try:
+            base = build({})
+        except Exception as e:  # noqa: BLE001
+            return {"base_error": type(e).__name__}
+        obs = {"spec": reflect(base), "extra0": enc(dict(base._extra_members), work), "active0": list(base._active_members)}  # pylint: disable=protected-access
+        kwargs = {k2: dec(v, work) for k2, v in case["kwargs"]}
+        try:
+            param = build(kwargs)
+            obs["ctor"] = None
+        except Exception as e:  # noqa: BLE001
+            obs["ctor"] = type(e).__name__
+            return obs
+        obs["ctor_form"] = enc(param.form(), work)
+        obs["ctor_active"] = list(param.active)
+        uij = UIJson({"title": P.StringParameter("title", "t"), "geoh5": P.WorkspaceParameter("geoh5"), "my": param})
+        steps = []
+        for op in case["ops"]:
+            st = {}
+            if op["op"] == "set":
+                st["verdict"] = _verdict(setattr, param, op["m"], dec(op["v"], work))
+                try:
+                    fresh = build({})
+                    st["fresh"] = _verdict(setattr, fresh, op["m"], dec(op["v"], work))
+                except Exception:  # noqa: BLE001
+                    st["fresh"] = st["verdict"]
+            elif op["op"] == "register":
+                st["verdict"] = _verdict(param.register, {k2: dec(v, work) for k2, v in op["items"]})
+            else:
+                st["verdict"] = _verdict(uij.update, {"my": {k2: dec(v, work) for k2, v in op["items"]}})
+            try:
+                st["form"] = enc(param.form(), work)
+            except uipv.NotExpressible as e:
+                return {"inexpressible": str(e)}
+            st["active"] = list(param.active)
+            steps.append(st)
+        obs["steps"] = steps
+        return obs
     if k == "infer":
         from geoh5py.ui_json.validation import InputValidation
         out = []
@@ -723,6 +855,53 @@ def case_term(case, obs):
             vals = "[" + "; ".join(coq(v) for v in case["vals"]) + "]"
             init = f"{{| pm_pool := fresh_pool {enf_term(enf)}; pm_val := {coq(obs['init'])} |}}"
             return f"param_obs_eqb (snd (param_run param_set {init} {vals})) [" + "; ".join(exp) + "]"
+        if k == "form":
+            if "inexpressible" in obs or "base_error" in obs:
+                return None
+            members = []
+            for ent in obs["spec"]:
+                c = ent["cls"]
+                if "restr" in ent:
+                    if ent["etype"] == "value":
+                        enf = [["value", ent["restr"]]]
+                    elif ent["etype"] == "type":
+                        enf = [["type", [t["ty"] for t in ent["restr"]]]]
+                    else:
+                        return None
+                elif c == "Parameter":
+                    enf = []
+                elif c in PARAM_ENF:
+                    enf = PARAM_ENF[c]
+                else:
+                    return None
+                members.append(f"({coq(ent['m'])[6:-1]}, {{| pm_pool := fresh_pool {enf_term(enf)}; pm_val := {coq(ent['val'])} |}})")
+            f0 = ("{| f_members := [" + "; ".join(members) + f"]; f_extra := {coq(obs['extra0'])[7:-1]}; f_active := ["
+                  + "; ".join(uipv.cstring(a) for a in obs["active0"]) + "] |}")
+
+            def items_term(items):
+                return "[" + "; ".join(f"({uipv.cstring(k2)}, {coq(v)})" for k2, v in items) + "]"
+
+            def alist(a):
+                return "[" + "; ".join(uipv.cstring(x) for x in a) + "]"
+            ops = [f"FRegister {items_term(case['kwargs'])}"]
+            e = cexn(obs["ctor"])
+            if e is None:
+                return "false"
+            if obs["ctor"] is not None:
+                return f"unit_res_eqb (snd (form_register camel_to_snake_table {f0} {items_term(case['kwargs'])})) {e}"
+            exp = [f"(None, {coq(obs['ctor_form'])}, {alist(obs['ctor_active'])})"]
+            for op, st in zip(case["ops"], obs["steps"]):
+                e = cexn(st["verdict"])
+                if e is None:
+                    return "false"
+                if op["op"] == "set":
+                    ops.append(f"FSet {uipv.cstring(op['m'])} {coq(op['v'])}")
+                elif op["op"] == "register":
+                    ops.append(f"FRegister {items_term(op['items'])}")
+                else:
+                    ops.append(f"FUpdate {items_term(op['items'])}")
+                exp.append(f"({e}, {coq(st['form'])}, {alist(st['active'])})")
+            return f"fobs_eqb (form_run camel_to_snake_table {f0} [" + "; ".join(ops) + "]) [" + "; ".join(exp) + "]"
         if k == "infer":
             if "seq" not in obs:
                 return None
@@ -1030,6 +1209,26 @@ def oracle(case, obs):  # noqa: C901
                           "what": f"call {i}: {obs['seq'][i]} on the used InputValidation, {obs['fresh'][i]} on a fresh one"})
         if any(t != obs["before"] for t in obs["tables"]):
             fails.append({"key": "validate-data-changes-rule-table", "what": "InputValidation.validations differs after validate_data"})
+    if k == "form" and "steps" in obs:
+        prev_form, prev_active = obs["ctor_form"], obs["ctor_active"]
+        for i, (op, st) in enumerate(zip(case["ops"], obs["steps"])):
+            changed = st["form"] != prev_form or st["active"] != prev_active
+            if op["op"] == "set" and st["verdict"] != st.get("fresh"):
+                fails.append({"key": "form-verdict-depends-on-history",
+                              "what": f"op {i}: {op['m']} = {op['v']!r} -> {st['verdict']} on the used form, {st['fresh']} on a fresh one"})
+                break
+            if st["verdict"] in VALIDATION_ERRORS and changed:
+                single = op["op"] == "set" or (op["op"] == "register" and len(op["items"]) == 1)
+                fails.append({"key": "form-rejected-member-changed-form" if single else "form-bulk-update-partially-applied",
+                              "what": f"op {i} ({op['op']} {op.get('m', op.get('items'))!r}) was rejected with {st['verdict']} but form()/active "
+                                      f"went from {prev_form!r} {prev_active} to {st['form']!r} {st['active']}"})
+                break
+            if op["op"] == "update" and st["verdict"] is None and not any(k2 == "value" for k2, _ in op["items"]) \
+                    and jget(st["form"], "value") != jget(prev_form, "value"):
+                fails.append({"key": "uijson-update-without-value-overwrites-value",
+                              "what": f"op {i}: UIJson.update with members only replaced the value {jget(prev_form, 'value')!r} by {jget(st['form'], 'value')!r}"})
+                break
+            prev_form, prev_active = st["form"], st["active"]
     if k == "infer" and "seq" in obs:
         first, last = obs["seq"][0], obs["seq"][-1]
         if first["ui"] == last["ui"] and first["res"] != last["res"]:
@@ -1094,6 +1293,9 @@ def nontrivial(case, obs):
         return True
     if k == "rv":
         return any(_is_form(f) and any(jhas(f, s) for s in ("group", "dependency")) for _, f in obs.get("ui", {"d": []})["d"])
+    if k == "form":
+        v = [st["verdict"] for st in obs.get("steps", [])]
+        return any(x in VALIDATION_ERRORS for x in v) and any(x is None for x in v)
     if k == "infer":
         return len(obs.get("seq", [])) >= 3
     if k == "ifv":
@@ -1131,6 +1333,10 @@ def histogram(cases, obs):
             for s in o.get("seq", []):
                 v = s[0] if isinstance(s, list) else s
                 h["verdicts"][str(v)] = h["verdicts"].get(str(v), 0) + 1
+        if k == "form":
+            for op, st in zip(c["ops"], o.get("steps", [])):
+                key = f"form:{op['op']}:{st.get('verdict')}"
+                h["verdicts"][key] = h["verdicts"].get(key, 0) + 1
         if k == "ifv":
             for st in o.get("steps", []):
                 if st["op"] == "skip":
